@@ -345,6 +345,41 @@ func c02(x *Ctx) {
 		c.Min(rPop, 1)
 	}
 
+	// a trace object created for a first span is put into the buffer on every path (an accepted span whose trace is
+	// never buffered is neither forwarded nor dropped)
+	const rNew = "C02.new-trace-buffered"
+	if ps := x.P.Func("collect", "CollectorWorker", "processSpan"); ps != nil && ps.Blocks != nil {
+		eng.Instrs(ps, func(in ssa.Instruction) {
+			al, ok := in.(*ssa.Alloc)
+			if !ok || !al.Heap || typeString(al.Type()) != "*types.Trace" {
+				return
+			}
+			c.Examined++
+			r := eng.Explore(eng.Query{Fn: ps, Start: in, Classify: func(i2 ssa.Instruction, _ eng.Facts) eng.Event {
+				if cl, ok := eng.IsCall(i2, nCacheSet); ok {
+					if _, d := eng.Derives(eng.CallArgs(cl)[0], func(v ssa.Value) bool { return v == ssa.Value(al) }, eng.FlowOpts{}); d {
+						return eng.EvKill
+					}
+				}
+				return eng.EvNone
+			}})
+			lost := false
+			var path []*ssa.BasicBlock
+			for _, e := range r.Exits {
+				if _, isRet := e.Instr.(*ssa.Return); isRet {
+					lost, path = true, e.Path
+				}
+			}
+			if lost {
+				o := c.Violate(rNew, "processSpan/new-trace", x.Pos(in), "a trace created for a span can leave processSpan without having been put into the buffer (the Set is deferred to a branch that is not always taken): the span was accepted but its trace is never decided, so it is neither forwarded nor counted as dropped")
+				o.Path = eng.DescribePath(x.P.Pos, path)
+			} else {
+				c.Hold(rNew, "processSpan/new-trace", x.Pos(in), "created ⇒ cache.Set on every path")
+			}
+		})
+	}
+	c.Min(rNew, 1)
+
 	errNil := func(md ssa.CallInstruction, want eng.Tri) *eng.Assume {
 		errs := extractOf(md, 1)
 		return &eng.Assume{Nil: func(v ssa.Value) eng.Tri {
@@ -428,6 +463,28 @@ func c02(x *Ctx) {
 					c.Decide(len(r.Hits) == 0, rRem, "sendExpiredTracesInCache/every-taken-decided", x.Pos(body.Instrs[0]), "every iteration over the taken traces reaches makeDecision",
 						"an iteration over the traces taken out of the buffer can finish without makeDecision: the trace vanishes undecided")
 				}
+			}
+			// the loop over the taken traces runs to the end: no break / return inside it (the traces have already
+			// left the buffer; the ones not reached are never decided)
+			if hdr != nil {
+				leaves := false
+				for _, b := range se.Blocks {
+					if b == hdr || !inNaturalLoop(b, hdr) {
+						continue
+					}
+					for _, sc := range b.Succs {
+						if !inNaturalLoop(sc, hdr) {
+							leaves = true
+						}
+					}
+					if len(b.Succs) == 0 {
+						if _, isPanic := b.Instrs[len(b.Instrs)-1].(*ssa.Panic); !isPanic {
+							leaves = true
+						}
+					}
+				}
+				c.Decide(!leaves, rRem, "sendExpiredTracesInCache/loop-complete", x.Pos(hdr.Instrs[0]), "the loop over the taken traces is only left when they are exhausted",
+					"the loop over the traces taken out of the buffer can be left early (break / return, e.g. a time budget): the remaining traces have already been removed from the buffer and are never decided, forwarded or counted")
 			}
 			c.Decide(len(mds) >= 1, rRem, "sendExpiredTracesInCache/decide-sites", x.PosOf(se.Pos()), sprintf("%d makeDecision sites", len(mds)), "no makeDecision call on taken traces")
 		}
